@@ -37,6 +37,8 @@ func rateScenario(c *Ctx, in map[string]string) {
 			s.Steps = append(s.Steps, Step{Op: "timedcall", Arg: "Pong", Args: []string{fmt.Sprintf("tok%d", i)}})
 		case "idle":
 			s.Steps = append(s.Steps, Step{Op: "sleep"}, Step{Op: "sleep"})
+		case "longidle": // a quiet connection earns no credit beyond the burst allowance
+			s.Steps = append(s.Steps, Step{Op: "sleep", Arg: "2500"})
 		}
 	}
 	res := c.RunSession(s)
@@ -117,6 +119,7 @@ func runC16Timing(c *Ctx) {
 	scen := []map[string]string{
 		{"kinds": "msg,who,join,msg,who,notice,who,who,msg,ping,who,pong,join,who"},
 		{"kinds": "msg,who,longmsg,ping,longmsg"},
+		{"kinds": "longidle,msg,msg,msg,msg,msg,msg,msg"},
 		{"allowflood": "1", "kinds": "msg,who,join,msg,who,notice,who,who,msg,ping,who,who,msg,who,msg,msg"},
 	}
 	if c.Tier == "thorough" {
